@@ -65,9 +65,19 @@ Definition kgood (k : bytes) : Prop := key_ok k /\ short (k ++ bs ":").
     a blank, no LF, not ending in CR, the line under the scanner's limit *)
 Definition vgood (k v : bytes) : Prop := val_ok v /\ val_clean v /\ short (k ++ bs ": " ++ v).
 
+(** a configuration the format can carry: distinct keys; every FILE entry has a
+    key the reader recognises and a value that fits on its line.  Internal
+    entries (tool labels such as ".file") are not constrained: the writer
+    never prints their values. *)
 Definition cfg_wf (R : list cfg) : Prop :=
-  NoDup (keys R) /\ Forall (fun c => kgood (c_key c)) R /\
-  Forall (fun c => c_file c = true -> vgood (c_key c) (c_val c)) R.
+  NoDup (keys R) /\
+  Forall (fun c => c_file c = true -> kgood (c_key c) /\ vgood (c_key c) (c_val c)) R.
+
+(** from one result to the next: the writer prints "key:" for every key that
+    disappears, so a key that cannot stand on a line of its own (necessarily an
+    internal one) must still be there *)
+Definition stays (P R : list cfg) : Prop :=
+  Forall (fun h => kgood (c_key h) \/ (c_file h = false /\ has_key R (c_key h) = true)) P.
 
 (** a result the format can carry; the size clause bounds its own benchmark line *)
 Definition WFres (r : result) : Prop :=
@@ -87,54 +97,71 @@ Proof. destruct v; [contradiction|discriminate]. Qed.
 
 Lemma cfg_wf_file_vals R : cfg_wf R -> file_vals_ok R.
 Proof.
-  intros (_ & _ & H). unfold file_vals_ok. eapply Forall_impl; [|exact H]. cbn. intros c Hc Hf.
+  intros (_ & H). unfold file_vals_ok. eapply Forall_impl; [|exact H]. cbn. intros c Hc Hf.
   apply val_ok_nonempty. apply Hc; auto.
 Qed.
 
-Definition keys_ok (l : list cfg) : Prop := Forall (fun c => kgood (c_key c)) l.
+Lemma stays_nil R : stays [] R.
+Proof. constructor. Qed.
 
-Lemma walk_ok H R : keys_ok H -> cfg_wf R ->
-  Forall op_ok (fst (walk H R)) /\ keys_ok (snd (walk H R)).
+(** [stays] only looks at keys and flags *)
+Lemma stays_look P H R : NoDup (keys H) -> (forall k, vlook H k = vlook P k) -> stays P R -> stays H R.
 Proof.
-  intros HH (HnR & HkR & HvR). induction H as [|h H IH]; [split; constructor|].
-  inversion HH as [|? ? Hh HH']; subst. destruct (IH HH') as [IH1 IH2]. cbn [walk].
+  intros Hn Hl Hs. unfold stays in *. rewrite Forall_forall in *. intros h Hh.
+  pose proof (vlook_in_nodup _ _ Hn Hh) as E. rewrite Hl in E. unfold vlook in E.
+  destruct (cfg_lookup P (c_key h)) as [c|] eqn:Ec; [|discriminate]. cbn in E. injection E as _ Ef.
+  apply cfg_lookup_some in Ec as [Ek Hin]. specialize (Hs c Hin). rewrite Ek, Ef in Hs. exact Hs.
+Qed.
+
+Lemma walk_ok H R : stays H R -> cfg_wf R -> Forall op_ok (fst (walk H R)).
+Proof.
+  intros HH (HnR & HvR). induction H as [|h H IH]; [constructor|].
+  inversion HH as [|? ? Hh HH']; subst. specialize (IH HH'). cbn [walk].
   destruct (walk H R) as [ls hv]. cbn [fst snd] in *.
   destruct (cfg_lookup R (c_key h)) as [c|] eqn:Ec.
-  - apply cfg_lookup_some in Ec as [Ek Hin].
-    destruct (same_cfg h c); cbn [fst snd]; [split; [auto|constructor; auto]|].
-    split; [|constructor; auto].
-    assert (Hset : c_file c = true -> op_ok (WSet (c_key h) (c_val c))).
-    { intros Ef. split; auto. rewrite Forall_forall in HvR. rewrite <- Ek. auto. }
-    destruct (c_file c) eqn:Ef; [|destruct (c_file h)]; cbn [app]; auto; constructor; auto.
-  - cbn [fst snd]. split; auto.
+  - pose proof Ec as Ec'. apply cfg_lookup_some in Ec' as [Ek Hin].
+    destruct (same_cfg h c); cbn [fst snd]; [auto|].
+    rewrite Forall_forall in HvR. specialize (HvR c Hin). rewrite Ek in HvR.
+    destruct (c_file c) eqn:Ef; [|destruct (c_file h) eqn:Eh]; cbn [app]; auto; constructor; auto.
+    + cbn. auto.
+    + cbn. destruct Hh as [Hk|[Hf _]]; [exact Hk|congruence].
+  - cbn [fst snd]. constructor; auto. cbn.
+    destruct Hh as [Hk|[_ Hf]]; [exact Hk|]. unfold has_key in Hf. rewrite Ec in Hf. discriminate.
 Qed.
 
-Lemma new_keys_ok R : cfg_wf R -> forall Hw, keys_ok Hw ->
-  Forall op_ok (fst (new_keys R Hw)) /\ keys_ok (snd (new_keys R Hw)).
+Lemma new_keys_ok R : cfg_wf R -> forall Hw, Forall op_ok (fst (new_keys R Hw)).
 Proof.
-  intros (HnR & HkR & HvR). clear HnR. induction R as [|c R IH]; intros Hw HHw; cbn [new_keys].
-  - split; [constructor|exact HHw].
-  - inversion HkR as [|? ? Hck HkR']; subst. inversion HvR as [|? ? Hcv HvR']; subst.
-    destruct (has_key Hw (c_key c)); [apply IH; auto|].
-    destruct (new_keys R (Hw ++ [_])) as [ls hv] eqn:En.
-    destruct (IH HkR' HvR' (Hw ++ [mkCfg (c_key c) (c_val c) (c_file c)])) as [I1 I2].
-    { apply Forall_app. split; auto. }
-    rewrite En in I1, I2. cbn [fst snd] in *. split; auto.
-    destruct (c_file c) eqn:Ef; cbn [app]; auto. constructor; auto. split; auto.
+  intros (_ & HvR). induction R as [|c R IH]; intros Hw; cbn [new_keys]; [constructor|].
+  inversion HvR as [|? ? Hcv HvR']; subst.
+  destruct (has_key Hw (c_key c)); [apply IH; auto|].
+  specialize (IH HvR' (Hw ++ [mkCfg (c_key c) (c_val c) (c_file c)])).
+  destruct (new_keys R (Hw ++ [_])) as [ls hv]. cbn [fst] in *.
+  destruct (c_file c) eqn:Ef; cbn [app]; auto. constructor; auto. cbn. auto.
 Qed.
 
-Lemma cfg_part_wf w R : keys_ok (w_have w) -> cfg_wf R ->
-  Forall op_ok (fst (cfg_part w R)) /\ keys_ok (snd (cfg_part w R)).
+Lemma cfg_part_wf w R : stays (w_have w) R -> cfg_wf R -> Forall op_ok (fst (cfg_part w R)).
 Proof.
-  intros HH HR. unfold cfg_part. destruct (needs_config (w_have w) R); [|split; [constructor|exact HH]].
-  unfold write_file_config. destruct (walk_ok (w_have w) R HH HR) as [W1 W2].
+  intros HH HR. unfold cfg_part. destruct (needs_config (w_have w) R); [|constructor].
+  unfold write_file_config. pose proof (walk_ok (w_have w) R HH HR) as W1.
   destruct (walk (w_have w) R) as [l1 hv1]. cbn [fst snd] in *.
-  destruct (new_keys_ok R HR hv1 W2) as [N1 N2].
+  pose proof (new_keys_ok R HR hv1) as N1.
   assert (Hpre : Forall op_ok (if w_first w then [] else [WBlank])) by (destruct (w_first w); repeat constructor).
   destruct (length hv1 =? length R)%nat.
-  - cbn [fst snd]. split; auto. repeat (apply Forall_app; split); auto. repeat constructor.
-  - destruct (new_keys R hv1) as [l2 hv2]. cbn [fst snd] in *. split; auto.
+  - cbn [fst]. repeat (apply Forall_app; split); auto. repeat constructor.
+  - destruct (new_keys R hv1) as [l2 hv2]. cbn [fst] in *.
     repeat (apply Forall_app; split); auto. repeat constructor.
+Qed.
+
+(** after the configuration part the belief has the result's keys, values and flags *)
+Lemma cfg_part_look w R : NoDup (keys (w_have w)) -> NoDup (keys R) ->
+  NoDup (keys (snd (cfg_part w R))) /\ forall k, vlook (snd (cfg_part w R)) k = vlook R k.
+Proof.
+  intros HnH HnR. unfold cfg_part. destruct (needs_config (w_have w) R) eqn:En.
+  2:{ cbn [snd]. split; [exact HnH|]. now apply needs_config_false. }
+  rewrite write_file_config_eq by auto. cbn [snd].
+  split; [apply new_keys_nodup, walk_nodup; auto|].
+  intros k. rewrite new_look, walk_look by auto.
+  destruct (vlook (w_have w) k); [destruct (vlook R k); reflexivity|reflexivity].
 Qed.
 
 Lemma write_result_eq w r :
@@ -235,50 +262,56 @@ Proof.
   exfalso. unfold tidy in E. cbn in E. injection E as _ <-. discriminate.
 Qed.
 
-(** a well-formed stream: results and unit-metadata records; metadata keys
-    (tidied unit, key) are new with respect to [seen] and pairwise distinct *)
-Inductive WFhist : list (bytes * bytes) -> list record -> Prop :=
-| WFh_nil seen : WFhist seen []
-| WFh_res seen r recs : WFres r -> WFhist seen recs -> WFhist seen (RRes r :: recs)
-| WFh_unit seen u recs : WFunit (up_meta u) -> ~ In (ukey (up_meta u)) seen ->
-    WFhist (seen ++ [ukey (up_meta u)]) recs -> WFhist seen (RUnit u :: recs).
+(** a well-formed stream: results and unit-metadata records.  [prev] is the
+    configuration of the previous result ([] at the start): see [stays].
+    Metadata keys (tidied unit, key) are new with respect to [seen] and
+    pairwise distinct *)
+Inductive WFhist : list cfg -> list (bytes * bytes) -> list record -> Prop :=
+| WFh_nil prev seen : WFhist prev seen []
+| WFh_res prev seen r recs : WFres r -> stays prev (r_cfg r) -> WFhist (r_cfg r) seen recs ->
+    WFhist prev seen (RRes r :: recs)
+| WFh_unit prev seen u recs : WFunit (up_meta u) -> ~ In (ukey (up_meta u)) seen ->
+    WFhist prev (seen ++ [ukey (up_meta u)]) recs -> WFhist prev seen (RUnit u :: recs).
 
 (** the lines written for a well-formed stream are clean *)
-Lemma written_lines_clean recs : forall seen w, WFhist seen recs -> keys_ok (w_have w) ->
+Lemma written_lines_clean recs : forall prev seen w, WFhist prev seen recs ->
+  NoDup (keys (w_have w)) -> (forall k, vlook (w_have w) k = vlook prev k) ->
   Forall line_clean (map render (fst (write_all w recs))).
 Proof.
-  induction recs as [|rec recs IH]; intros seen w Hwf HkH; [constructor|].
-  inversion Hwf as [|? r ? (Hcfg & Hbench & Hshort) Hwf'|? u ? Hu Hfresh Hwf']; subst.
+  induction recs as [|rec recs IH]; intros prev seen w Hwf HnH Hlk; [constructor|].
+  inversion Hwf as [|? ? r ? (Hcfg & Hbench & Hshort) Hst Hwf'|? ? u ? Hu Hfresh Hwf']; subst.
   - cbn [write_all write_rec]. rewrite write_result_eq.
-    destruct (cfg_part_wf w (r_cfg r) HkH Hcfg) as [Hops Hkeys].
-    specialize (IH seen (mkWstate false (snd (cfg_part w (r_cfg r)))) Hwf' Hkeys).
+    pose proof (cfg_part_wf w (r_cfg r) (stays_look _ _ _ HnH Hlk Hst) Hcfg) as Hops.
+    destruct (cfg_part_look w (r_cfg r) HnH (proj1 Hcfg)) as [Hn' Hl'].
+    specialize (IH (r_cfg r) seen (mkWstate false (snd (cfg_part w (r_cfg r)))) Hwf' Hn' Hl').
     destruct (write_all (mkWstate false (snd (cfg_part w (r_cfg r)))) recs) as [l2 w2]. cbn [fst] in *.
     rewrite !map_app. repeat (apply Forall_app; split); auto.
     + apply Forall_map. eapply Forall_impl; [|exact Hops]. apply op_line_clean.
     + constructor; [|constructor]. now apply bench_clean.
-  - cbn [write_all write_rec]. specialize (IH _ w Hwf' HkH).
+  - cbn [write_all write_rec]. specialize (IH _ _ w Hwf' HnH Hlk).
     destruct (write_all w recs) as [l2 w2]. cbn [fst app map] in *. constructor; auto. now apply unit_clean.
 Qed.
 
-Theorem roundtrip_spec recs : forall w m n um,
-  WFhist (ukeys um) recs -> NoDup (keys (w_have w)) -> keys_ok (w_have w) -> Inv m (w_have w) ->
+Theorem roundtrip_spec recs : forall prev w m n um,
+  WFhist prev (ukeys um) recs -> NoDup (keys (w_have w)) -> (forall k, vlook (w_have w) k = vlook prev k) ->
+  Inv m (w_have w) ->
   exists out um',
     spec_lines fname n m um (map Line (map render (fst (write_all w recs)))) = (out, None, um') /\
     Forall2 rt_equiv out recs.
 Proof.
-  induction recs as [|rec recs IH]; intros w m n um Hwf HnH HkH Hinv.
+  induction recs as [|rec recs IH]; intros prev w m n um Hwf HnH Hlk Hinv.
   - exists [], um. split; [reflexivity|constructor].
-  - inversion Hwf as [|? r ? (Hcfg & Hbench & Hshort) Hwf'|? u ? [Hu _] Hfresh Hwf']; subst.
+  - inversion Hwf as [|? ? r ? (Hcfg & Hbench & Hshort) Hst Hwf'|? ? u ? [Hu _] Hfresh Hwf']; subst.
     + cbn [write_all write_rec]. rewrite write_result_eq.
       set (cp := cfg_part w (r_cfg r)).
       destruct (write_all (mkWstate false (snd cp)) recs) as [l2 w2] eqn:E2. cbn [fst].
-      destruct (cfg_part_wf w (r_cfg r) HkH Hcfg) as [Hops Hkeys]. fold cp in Hops, Hkeys.
+      pose proof (cfg_part_wf w (r_cfg r) (stays_look _ _ _ HnH Hlk Hst) Hcfg) as Hops. fold cp in Hops.
       destruct (cfg_part_ok w (r_cfg r) m HnH (proj1 Hcfg) (cfg_wf_file_vals _ Hcfg) Hinv) as (Hn' & Hlook & Hinv').
       fold cp in Hn', Hlook, Hinv'.
       rewrite !map_app, <- app_assoc. rewrite spec_lines_ops by exact Hops.
       cbn [map app]. rewrite spec_lines_bench by exact Hbench.
-      destruct (IH (mkWstate false (snd cp)) (apply_ops m (fst cp)) (n + Z.of_nat (length (fst cp)) + 1)%Z um
-                   Hwf' Hn' Hkeys Hinv') as (out & um' & Hout & Hf).
+      destruct (IH (r_cfg r) (mkWstate false (snd cp)) (apply_ops m (fst cp)) (n + Z.of_nat (length (fst cp)) + 1)%Z um
+                   Hwf' Hn' Hlook Hinv') as (out & um' & Hout & Hf).
       rewrite E2 in Hout. cbn [fst] in Hout. rewrite Hout.
       eexists _, um'. split; [reflexivity|]. constructor; [|exact Hf].
       cbn [rt_equiv r_name r_iters r_vals r_cfg]. repeat split; auto.
@@ -288,9 +321,9 @@ Proof.
     + cbn [write_all write_rec].
       destruct (write_all w recs) as [l2 w2] eqn:E2. cbn [fst app map].
       rewrite spec_lines_unit by assumption. cbn zeta.
-      assert (Hwf'' : WFhist (ukeys (um ++ [mkUmetap (up_meta u) fname (n + 1)])) recs).
+      assert (Hwf'' : WFhist prev (ukeys (um ++ [mkUmetap (up_meta u) fname (n + 1)])) recs).
       { unfold ukeys. rewrite map_app. exact Hwf'. }
-      destruct (IH w m (n + 1)%Z _ Hwf'' HnH HkH Hinv) as (out & um' & Hout & Hf).
+      destruct (IH prev w m (n + 1)%Z _ Hwf'' HnH Hlk Hinv) as (out & um' & Hout & Hf).
       rewrite E2 in Hout. cbn [fst] in Hout. rewrite Hout.
       eexists _, um'. split; [reflexivity|]. constructor; [reflexivity|exact Hf].
 Qed.
@@ -320,7 +353,7 @@ Notation WFhist := (WFhist is_space is_lower is_upper atoi parse_float fmt_g).
 (** the round trip, through the model of the real reader, from any earlier
     state of that reader: results and unit metadata, in order *)
 Theorem roundtrip_history (recs : list record) (st : rstate) (fname : bytes) :
-  WFhist (ukeys (rs_units st)) recs ->
+  WFhist [] (ukeys (rs_units st)) recs ->
   exists out st',
     read_file is_space is_lower is_upper atoi parse_float st fname [] (emit fmt_g recs) = (out, None, st') /\
     Forall2 rt_equiv out recs.
@@ -331,10 +364,10 @@ Proof.
   destruct (reader_refines_linespec _ _ _ _ _ _ _ _ _ _ _ _ E) as (rs2 & Hls & Hf).
   unfold Reader.linespec, emit, emit_lines in Hls.
   rewrite split_join_lines in Hls
-    by (eapply (written_lines_clean is_space is_lower is_upper atoi parse_float fmt_g Hcolon Hlf); [exact Hwf|constructor]).
+    by (eapply (written_lines_clean is_space is_lower is_upper atoi parse_float fmt_g Hcolon Hlf); [exact Hwf|constructor|reflexivity]).
   destruct (roundtrip_spec is_space is_lower is_upper atoi parse_float fmt_g Hcolon (file_name fname)
-              recs w_init (cm_labels []) 0%Z (rs_units st) Hwf) as (out2 & um' & Hout2 & Hf2).
-  { constructor. } { constructor. } { split; [constructor|reflexivity]. }
+              recs [] w_init (cm_labels []) 0%Z (rs_units st) Hwf) as (out2 & um' & Hout2 & Hf2).
+  { constructor. } { reflexivity. } { split; [constructor|reflexivity]. }
   rewrite Hout2 in Hls. injection Hls as <- <- _.
   exists out, st'. split; [reflexivity|].
   clear - Hf Hf2. revert recs Hf2. induction Hf as [|o o2 l l2 Ho _ IH]; intros recs Hf2; inversion Hf2; subst; constructor.
@@ -344,7 +377,7 @@ Qed.
 
 (** tool-internal configuration never comes back as file configuration *)
 Theorem internal_never_reappears (recs : list record) (st : rstate) (fname : bytes) :
-  WFhist (ukeys (rs_units st)) recs ->
+  WFhist [] (ukeys (rs_units st)) recs ->
   exists out st',
     read_file is_space is_lower is_upper atoi parse_float st fname [] (emit fmt_g recs) = (out, None, st') /\
     Forall2 (fun o w => match o, w with
@@ -355,9 +388,9 @@ Theorem internal_never_reappears (recs : list record) (st : rstate) (fname : byt
 Proof.
   intros Hwf. destruct (roundtrip_history recs st fname Hwf) as (out & st' & E & Hf).
   exists out, st'. split; [exact E|].
-  clear E. revert Hwf. generalize (ukeys (rs_units st)).
-  induction Hf as [|o w l l2 Ho _ IH]; intros seen Hwf; [constructor|].
-  inversion Hwf as [|? r ? ((Hn & _) & _) Hwf'|? u ? _ _ Hwf']; subst.
+  clear E. revert Hwf. generalize (ukeys (rs_units st)). generalize (@nil cfg).
+  induction Hf as [|o w l l2 Ho _ IH]; intros prev seen Hwf; [constructor|].
+  inversion Hwf as [|? ? r ? ((Hn & _) & _) _ Hwf'|? ? u ? _ _ Hwf']; subst.
   - constructor; [|eapply IH; eauto].
     destruct o as [r'| |]; try contradiction. destruct Ho as (_ & _ & _ & _ & Hl).
     intros c Hc Hfile. specialize (Hl (c_key c)). rewrite (vlook_in_nodup _ _ Hn Hc), Hfile in Hl. cbn in Hl.
